@@ -286,7 +286,7 @@ def gen_program(rng, size: int = 10, with_args: bool = True, control_flow: bool 
             if i is not None:
                 j = pick(lambda v: is_num(v) and v.shape == [3] and v.dt == "i64")
                 emit({"op": "inline", "args": [i, j]}, _V("tensor", "i64", [3], vs[i].const and vs[j].const),
-                     _V("tensor", "f32", [3], vs[i].const and vs[j].const))
+                     _V("tensor", "i64", [3], vs[i].const and vs[j].const))
         elif choice == "if":
             i = pick(lambda v: is_num(v)) if control_flow else None
             if i is not None:
@@ -301,7 +301,7 @@ _INLINE_MODEL = None
 
 
 def _inline_model():
-    """f(p, q) = (p * q + p, cast(p - q, float32)) over int64[3]."""
+    """f(p, q) = (p * q + p, p - q) over int64[3]: two outputs of the same type."""
     global _INLINE_MODEL
     if _INLINE_MODEL is None:
         import spox.opset.ai.onnx.v17 as op
@@ -311,7 +311,7 @@ def _inline_model():
             p = argument(Tensor(np.int64, (3,)))
             q = argument(Tensor(np.int64, (3,)))
             _INLINE_MODEL = build({"p": p, "q": q},
-                                  {"r": op.add(op.mul(p, q), p), "s": op.cast(op.sub(p, q), to=np.float32)})
+                                  {"r": op.add(op.mul(p, q), p), "s": op.sub(p, q)})
     return _INLINE_MODEL
 
 
@@ -719,6 +719,7 @@ def record_history(steps: list, sel: str, script=None, at: str = "run") -> dict:
     if any(st["op"] == "if" for st in steps):
         return {"skip": "control flow"}
     reg = L.PidRegistry()
+    nonconf: list = []
     vars_: list = []
     ref_of: dict = {}
     hist: list = []
@@ -776,5 +777,11 @@ def record_history(steps: list, sel: str, script=None, at: str = "run") -> dict:
                     ref_of[id(v)] = {"node": idx, "out": j}
                 real_vals.append([{"key": key, "value": L.canon_pv(v._value, reg)}
                                   for key, v in node.outputs.get_vars().items()])
+                for key, v in node.outputs.get_vars().items():
+                    if v._value is not None:
+                        why = "untyped-var" if v.type is None else L.conforms(v._value.value, v.type)
+                        if why:
+                            nonconf.append((f"value-not-of-type:{st['op']}:{type_key(v.type)}",
+                                            f"[{sel}] {st['op']}->{key}: attached value does not conform to {v.type}: {why}"))
                 vars_.extend(new)
-    return {"steps": hist, "real": real_vals}
+    return {"steps": hist, "real": real_vals, "failures": nonconf}
